@@ -26,20 +26,36 @@ theorem isLitS_of_atom {a : Term} (h : isAtomS a = true) : isLitS a = true := by
     · next heq => cases heq; simp [isAtomS, Term.op] at h
     · exact h
 
+theorem isAtomS_bool {a : Term} (h : isAtomS a = true) : a.typeOf = some .bool := by
+  simp only [isAtomS, Bool.and_eq_true, beq_iff_eq] at h
+  exact h.2
+
 theorem simpShape_id : SimpShape id := by
   intro x hx
   rcases hx with h | h
   · exact Or.inl (isLitS_of_atom h)
   · exact Or.inr h
 
-theorem isAtomS_sym (k : Sym) : isAtomS (Term.sym k) = true := rfl
-theorem isLitS_sym (k : Sym) : isLitS (Term.sym k) = true := rfl
-theorem isLitS_notSym (k : Sym) : isLitS (Term.mkNot (Term.sym k)) = true := rfl
+/-- every definition symbol is a Boolean constant symbol -/
+def KeyBool (E : Env) : Prop := ∀ h : Term, (E.key h).params = [] ∧ (E.key h).ret = .bool
+
+theorem typeOf_boolSym {k : Sym} (h : k.params = [] ∧ k.ret = .bool) : (Term.sym k).typeOf = some .bool := by
+  simp only [Term.sym, typeOf_node, List.map_nil, typeOfNode_symbol_eq, h.1, List.isEmpty_nil, if_true, h.2]
+
+theorem isAtomS_sym {k : Sym} (h : k.params = [] ∧ k.ret = .bool) : isAtomS (Term.sym k) = true := by
+  have := typeOf_boolSym h
+  simp only [isAtomS, this, beq_self_eq_true, Bool.and_true]
+  rfl
 
 theorem isAtomS_not (args : List Term) (p : Payload) : isAtomS (.node .not args p) = false := rfl
 
 theorem isLitS_mkNot {a : Term} (h : isAtomS a = true) : isLitS (Term.mkNot a) = true := by
   simpa [Term.mkNot, isLitS] using h
+
+theorem isLitS_sym {k : Sym} (h : k.params = [] ∧ k.ret = .bool) : isLitS (Term.sym k) = true :=
+  isLitS_of_atom (isAtomS_sym h)
+theorem isLitS_notSym {k : Sym} (h : k.params = [] ∧ k.ret = .bool) : isLitS (Term.mkNot (Term.sym k)) = true :=
+  isLitS_mkNot (isAtomS_sym h)
 
 /-- a literal is an atom or the negation of an atom -/
 theorem isLitS_cases {l : Term} (h : isLitS l = true) :
@@ -194,13 +210,14 @@ theorem ph_false_of_bool : (x : Term) → x.wf = true → x.typeOf = some .bool 
 
 theorem isAtomS_of_op {op : Op} {args : List Term} {p : Payload}
     (h1 : op ≠ .and) (h2 : op ≠ .or) (h3 : op ≠ .not) (h4 : op ≠ .implies) (h5 : op ≠ .iff) (h6 : op ≠ .boolConst)
-    (h7 : op ≠ .forall_) (h8 : op ≠ .exists_) (h9 : op ≠ .ite) : isAtomS (.node op args p) = true := by
-  simp only [isAtomS, Term.op]
+    (h7 : op ≠ .forall_) (h8 : op ≠ .exists_) (h9 : op ≠ .ite)
+    (hty : (Term.node op args p).typeOf = some .bool) : isAtomS (.node op args p) = true := by
+  simp only [isAtomS, Term.op, hty, beq_self_eq_true, Bool.and_true]
 
 /-- an atom of the model (a node on which `enc` answers the node itself) is an atom of the
 specification or a constant -/
 theorem default_litOrConst {op : Op} {args : List Term} {p : Payload} (hwf : (Term.node op args p).wf = true)
-    (hq : op.isQuantifier = false)
+    (hty : (Term.node op args p).typeOf = some .bool) (hq : op.isQuantifier = false)
     (h1 : op = .and → False) (h2 : op = .or → False)
     (h5 : ∀ a, op = .not → args = [a] → False) (h6 : ∀ a b, op = .implies → args = [a, b] → False)
     (h7 : ∀ a b, op = .iff → args = [a, b] → False) (h8 : ∀ a b c, op = .ite → args = [a, b, c] → False) :
@@ -235,50 +252,75 @@ theorem default_litOrConst {op : Op} {args : List Term} {p : Payload} (hwf : (Te
       cases v
       · exact Or.inr (Or.inr rfl)
       · exact Or.inr (Or.inl rfl)
-  · refine Or.inl (isLitS_of_atom (isAtomS_of_op (fun h => h1 h) (fun h => h2 h) hn hi hf hb ?_ ?_ ht))
+  · refine Or.inl (isLitS_of_atom (isAtomS_of_op (fun h => h1 h) (fun h => h2 h) hn hi hf hb ?_ ?_ ht hty))
     · rintro rfl; simp [Op.isQuantifier] at hq
     · rintro rfl; simp [Op.isQuantifier] at hq
 
-theorem enc_lits (E : Env) (hσ : SimpShape E.simp) :
-    (g : Term) → g.wf = true → g.isQF = true →
+theorem typeOfNode_conn {op : Op} (hc : isConn op = true) (p : Payload) (ts : List (Option Ty)) :
+    typeOfNode op p ts = if allAre ts .bool then some .bool else none := by
+  cases op <;> simp [isConn] at hc <;> cases p <;> rfl
+
+/-- the arguments of a typable connective are Boolean -/
+theorem conn_args_bool {op : Op} {args : List Term} {p : Payload} (hc : isConn op = true)
+    (hwf : (Term.node op args p).wf = true) : ∀ a ∈ args, a.typeOf = some .bool := by
+  have hts := (Term.wf_node.mp hwf).2.2
+  rw [typeOfNode_conn hc] at hts
+  split at hts
+  · next h =>
+    intro a ha
+    simp only [allAre, List.all_eq_true, List.mem_map, forall_exists_index, and_imp,
+      forall_apply_eq_imp_iff₂, beq_iff_eq] at h
+    exact h a ha
+  · cases hts
+
+theorem ite_args_bool {args : List Term} {p : Payload} (hwf : (Term.node .ite args p).wf = true)
+    (hty : (Term.node .ite args p).typeOf = some .bool) : ∀ a ∈ args, a.typeOf = some .bool := by
+  have hlen := wf_len hwf
+  rw [shapeOK_ite] at hlen
+  obtain ⟨c, x, y, rfl⟩ := len3 (by simpa using hlen)
+  have hts := (Term.wf_node.mp hwf).2.2
+  simp only [List.map_cons, List.map_nil] at hts
+  obtain ⟨h1, h2, h3⟩ := typeOfNode_ite_some p _ _ _ hts
+  rw [typeOf_node] at hty
+  simp only [List.map_cons, List.map_nil] at hty
+  rw [h1] at hty
+  intro a ha
+  simp only [List.mem_cons, List.mem_nil_iff, or_false] at ha
+  rcases ha with rfl | rfl | rfl
+  · exact h2
+  · exact hty
+  · rw [h3]; exact hty
+
+theorem enc_lits (E : Env) (hσ : SimpShape E.simp) (hkb : KeyBool E) :
+    (g : Term) → g.wf = true → g.isQF = true → g.typeOf = some .bool →
       LitOrConst (enc E g).1 ∧ AllLits LitOrConst (enc E g).2
   | .node op args p => by
-    intro hwf hqf
+    intro hwf hqf hty
     have hq : op.isQuantifier = false := by
       have hqf' := hqf
       simp only [Term.isQF, List.all_eq_true, Bool.not_eq_true'] at hqf'
       simpa [Term.op] using hqf' _ (subterms_self _)
     have hkey : LitOrConst (Term.sym (E.key (.node op args p))) ∧
-        LitOrConst (Term.mkNot (Term.sym (E.key (.node op args p)))) := ⟨Or.inl rfl, Or.inl rfl⟩
-    have ih : ∀ a ∈ args, LitOrConst (enc E a).1 ∧ AllLits LitOrConst (enc E a).2 := fun a ha =>
-      enc_lits E hσ a (wf_args hwf a ha) (by
+        LitOrConst (Term.mkNot (Term.sym (E.key (.node op args p)))) :=
+      ⟨Or.inl (isLitS_sym (hkb _)), Or.inl (isLitS_notSym (hkb _))⟩
+    have ih : ∀ a ∈ args, a.typeOf = some .bool →
+        LitOrConst (enc E a).1 ∧ AllLits LitOrConst (enc E a).2 := fun a ha hta =>
+      enc_lits E hσ hkb a (wf_args hwf a ha) (by
         simp only [Term.isQF, List.all_eq_true] at hqf ⊢
-        exact fun x hx => hqf x (subterms_child ha hx))
-    have hdef := @default_litOrConst op args p hwf hq
-    have hite : op = .ite → ph (.node op args p) = true → LitOrConst (.node op args p) := by
-      intro hop hph
-      subst hop
-      have hlen := wf_len hwf
-      rw [shapeOK_ite] at hlen
-      obtain ⟨c, a, b, rfl⟩ := len3 (by simpa using hlen)
-      left
-      simp only [isLitS, isAtomS, Term.op, isBoolIte, Bool.not_eq_eq_eq_not, Bool.not_true, beq_eq_false_iff_ne,
-        ne_eq]
-      intro hty
-      have hts := (Term.wf_node.mp hwf).2.2
-      simp only [List.map_cons, List.map_nil] at hts
-      have := (typeOfNode_ite_some p _ _ _ hts).1
-      have hb : (Term.node .ite [c, a, b] p).typeOf = some .bool := by
-        rw [typeOf_node]
-        simp only [List.map_cons, List.map_nil]
-        rw [this, hty]
-      rw [ph_false_of_bool _ hwf hb] at hph
+        exact fun x hx => hqf x (subterms_child ha hx)) hta
+    have hch : isConn op = true → ∀ a ∈ args, a.typeOf = some .bool := fun hc => conn_args_bool hc hwf
+    have hchi : op = .ite → ∀ a ∈ args, a.typeOf = some .bool := by
+      intro e; subst e; exact ite_args_bool hwf hty
+    have hdef := @default_litOrConst op args p hwf hty hq
+    have hite : ph (.node op args p) = true → False := by
+      intro hph
+      rw [ph_false_of_bool _ hwf hty] at hph
       cases hph
-    clear hwf hqf
-    revert hkey ih hdef hite
+    clear hwf hqf hty
+    revert hkey ih hdef hite hch hchi
     rw [enc.eq_def]; simp only
-    split <;> intro hkey ih hdef hite
-    · exact ih _ (by simp)
+    split <;> intro hkey ih hch hchi hdef hite
+    · exact ih _ (by simp) (hch rfl _ (by simp))
     · refine ⟨hkey.1, ?_⟩
       simp only [List.map_map, Function.comp_def]
       refine allLits_cons.mpr ⟨?_, allLits_append.mpr ⟨?_, allLits_flatten.mpr ?_⟩⟩
@@ -286,17 +328,17 @@ theorem enc_lits (E : Env) (hσ : SimpShape E.simp) :
         rcases List.mem_cons.mp hl with rfl | hl
         · exact hkey.1
         · obtain ⟨a, ha, rfl⟩ := List.mem_map.mp hl
-          exact litOrConst_negLit hσ (ih a ha).1
+          exact litOrConst_negLit hσ (ih a ha (hch rfl a ha)).1
       · rw [allLits_map]
         intro a ha l hl
         simp only [List.mem_cons, List.mem_nil_iff, or_false] at hl
         rcases hl with rfl | rfl
-        · exact (ih a ha).1
+        · exact (ih a ha (hch rfl a ha)).1
         · exact hkey.2
       · intro cs hcs
         obtain ⟨a, ha, rfl⟩ := List.mem_map.mp hcs
-        exact (ih a ha).2
-    · exact ih _ (by simp)
+        exact (ih a ha (hch rfl a ha)).2
+    · exact ih _ (by simp) (hch rfl _ (by simp))
     · refine ⟨hkey.1, ?_⟩
       simp only [List.map_map, Function.comp_def]
       refine allLits_cons.mpr ⟨?_, allLits_append.mpr ⟨?_, allLits_flatten.mpr ?_⟩⟩
@@ -304,26 +346,26 @@ theorem enc_lits (E : Env) (hσ : SimpShape E.simp) :
         rcases List.mem_cons.mp hl with rfl | hl
         · exact hkey.2
         · obtain ⟨a, ha, rfl⟩ := List.mem_map.mp hl
-          exact (ih a ha).1
+          exact (ih a ha (hch rfl a ha)).1
       · rw [allLits_map]
         intro a ha l hl
         simp only [List.mem_cons, List.mem_nil_iff, or_false] at hl
         rcases hl with rfl | rfl
         · exact hkey.1
-        · exact litOrConst_negLit hσ (ih a ha).1
+        · exact litOrConst_negLit hσ (ih a ha (hch rfl a ha)).1
       · intro cs hcs
         obtain ⟨a, ha, rfl⟩ := List.mem_map.mp hcs
-        exact (ih a ha).2
+        exact (ih a ha (hch rfl a ha)).2
     · next a =>
-      have iha := ih a (by simp)
+      have iha := ih a (by simp) (hch rfl a (by simp))
       split
       · exact ⟨Or.inr (Or.inr rfl), allLits_nil⟩
       · split
         · exact ⟨Or.inr (Or.inl rfl), allLits_nil⟩
         · exact ⟨litOrConst_negLit hσ iha.1, iha.2⟩
     · next a b =>
-      have iha := ih a (by simp)
-      have ihb := ih b (by simp)
+      have iha := ih a (by simp) (hch rfl a (by simp))
+      have ihb := ih b (by simp) (hch rfl b (by simp))
       refine ⟨hkey.1, ?_⟩
       simp only [allLits_append]
       refine ⟨⟨?_, iha.2⟩, ihb.2⟩
@@ -336,8 +378,8 @@ theorem enc_lits (E : Env) (hσ : SimpShape E.simp) :
           | exact hkey.1 | exact hkey.2 | exact iha.1 | exact ihb.1
           | exact litOrConst_negLit hσ iha.1 | exact litOrConst_negLit hσ ihb.1
     · next a b =>
-      have iha := ih a (by simp)
-      have ihb := ih b (by simp)
+      have iha := ih a (by simp) (hch rfl a (by simp))
+      have ihb := ih b (by simp) (hch rfl b (by simp))
       refine ⟨hkey.1, ?_⟩
       simp only [allLits_append]
       refine ⟨⟨?_, iha.2⟩, ihb.2⟩
@@ -351,10 +393,10 @@ theorem enc_lits (E : Env) (hσ : SimpShape E.simp) :
           | exact litOrConst_negLit hσ iha.1 | exact litOrConst_negLit hσ ihb.1
     · next i th el =>
       split
-      · next hph => exact ⟨hite rfl hph, allLits_nil⟩
-      · have ihi := ih i (by simp)
-        have iht := ih th (by simp)
-        have ihe := ih el (by simp)
+      · next hph => exact absurd hph (fun h => hite h)
+      · have ihi := ih i (by simp) (hchi rfl i (by simp))
+        have iht := ih th (by simp) (hchi rfl th (by simp))
+        have ihe := ih el (by simp) (hchi rfl el (by simp))
         refine ⟨hkey.1, ?_⟩
         simp only [allLits_append]
         refine ⟨⟨⟨?_, ihi.2⟩, iht.2⟩, ihe.2⟩
@@ -387,7 +429,22 @@ theorem finish_shape (E : Env) (tl : Term) (cs : List Clause) (htl : LitOrConst 
     · simp only
       split
       · simp [shapeClauses, falseCnf]
-      · have : ∀ c ∈ norm (cs.filterMap (cleanClause E tl)), ∀ l ∈ c, isLitS l = true := by
+      · next hne =>
+        have hnonempty : ∀ c ∈ norm (cs.filterMap (cleanClause E tl)), c.isEmpty = false := by
+          intro c hc
+          obtain ⟨d, hd, rfl⟩ := mem_norm hc
+          have hd' : d.isEmpty = false := by
+            cases hde : d.isEmpty
+            · rfl
+            · exact absurd (List.any_eq_true.mpr ⟨d, hd, hde⟩) hne
+          cases d with
+          | nil => simp at hd'
+          | cons x xs =>
+            have : x ∈ dedup (x :: xs) := (mem_dedup _ _).mpr List.mem_cons_self
+            cases hdd : dedup (x :: xs) with
+            | nil => rw [hdd] at this; cases this
+            | cons _ _ => rfl
+        have : ∀ c ∈ norm (cs.filterMap (cleanClause E tl)), ∀ l ∈ c, isLitS l = true := by
           intro c hc l hl
           obtain ⟨d, hd, rfl⟩ := mem_norm hc
           rw [mem_dedup] at hl
@@ -401,18 +458,78 @@ theorem finish_shape (E : Env) (tl : Term) (cs : List Clause) (htl : LitOrConst 
             rw [isTrueC_tt] at this; cases this
           · subst h
             rw [isFalseC_ff] at hnf; cases hnf
-        simp only [shapeClauses, Bool.or_eq_true, List.all_eq_true]
-        exact Or.inr this
+        simp only [shapeClauses, Bool.or_eq_true, List.all_eq_true, Bool.and_eq_true, Bool.not_eq_true']
+        exact Or.inr (fun c hc => ⟨hnonempty c hc, this c hc⟩)
 
-theorem convert_shape (E : Env) (hσ : SimpShape E.simp) (t : Term) (hwf : t.wf = true) (R : List Clause)
-    (hR : convert E t = some R) : shapeClauses R = true := by
+theorem convert_shape (E : Env) (hσ : SimpShape E.simp) (hkb : KeyBool E) (t : Term) (hwf : t.wf = true)
+    (hty : t.typeOf = some .bool) (R : List Clause) (hR : convert E t = some R) : shapeClauses R = true := by
   unfold convert at hR
   split at hR
-  · next hqf =>
+  · next hc =>
     cases hR
-    have := enc_lits E hσ t hwf hqf
+    simp only [Bool.and_eq_true] at hc
+    have := enc_lits E hσ hkb t hwf hc.1 hty
     exact finish_shape E _ _ this.1 this.2
   · cases hR
+
+/-! ## `convert_as_formula`: a conjunction of disjunctions of literals -/
+
+theorem isLitS_op {l : Term} (h : isLitS l = true) : l.op ≠ .or ∧ l.op ≠ .and ∧ l.op ≠ .boolConst := by
+  rcases isLitS_cases h with ha | ⟨a, p, rfl, _⟩
+  · cases l with
+    | node op args p =>
+      simp only [isAtomS, Term.op, Bool.and_eq_true] at ha
+      simp only [Term.op]
+      refine ⟨?_, ?_, ?_⟩ <;> (rintro rfl; simp at ha)
+  · simp [Term.op]
+
+theorem clauseOK_mkOrN {c : Clause} (hne : c.isEmpty = false) (hl : ∀ l ∈ c, isLitS l = true) :
+    (match mkOrN c with
+     | .node .or ls _ => ls.all isLitS
+     | x => isLitS x) = true ∧ (mkOrN c).op ≠ .and ∧ (mkOrN c).op ≠ .boolConst := by
+  match c, hne, hl with
+  | [l], _, hl =>
+    have h := hl l (by simp)
+    have ho := isLitS_op h
+    cases l with
+    | node op args p =>
+      simp only [mkOrN, Term.op] at ho ⊢
+      refine ⟨?_, ho.2.1, ho.2.2⟩
+      split
+      · next heq => cases heq; exact absurd rfl ho.1
+      · exact h
+  | a :: b :: rest, _, hl =>
+    simp only [mkOrN, Term.mkOr, Term.op]
+    exact ⟨List.all_eq_true.mpr hl, by simp, by simp⟩
+
+theorem shapeFormula_of_clauses (R : List Clause) (h : shapeClauses R = true) :
+    shapeFormula (formulaOf R) = true := by
+  simp only [shapeClauses, Bool.or_eq_true, beq_iff_eq] at h
+  rcases h with ((h | h) | h) | h
+  · subst h; rfl
+  · subst h; rfl
+  · subst h; rfl
+  · simp only [List.all_eq_true, Bool.and_eq_true, Bool.not_eq_true'] at h
+    have hcl : ∀ c ∈ R, _ := fun c hc => clauseOK_mkOrN (h c hc).1 (h c hc).2
+    unfold formulaOf shapeFormula
+    match R, hcl with
+    | [], _ => rfl
+    | [c], hcl =>
+      have := hcl c (by simp)
+      simp only [List.map_cons, List.map_nil, mkAndN]
+      generalize mkOrN c = x at this
+      cases x with
+      | node op args p =>
+        simp only [Term.op] at this
+        split
+        · next heq => cases heq; exact absurd rfl this.2.2
+        · next heq => cases heq; exact absurd rfl this.2.1
+        · exact this.1
+    | a :: b :: rest, hcl =>
+      simp only [List.map_cons, mkAndN, Term.mkAnd]
+      simp only [List.all_cons, Bool.and_eq_true, List.all_eq_true, List.mem_map, forall_exists_index, and_imp,
+        forall_apply_eq_imp_iff₂]
+      exact ⟨(hcl a (by simp)).1, (hcl b (by simp)).1, fun c hc => (hcl c (by simp [hc])).1⟩
 
 end PySMT.CNF
 
@@ -420,13 +537,14 @@ namespace PySMT.PolCNF
 open PySMT.CNF
 
 /-- a formula without a quantifier at a Boolean position that is quantifier-free anyway -/
-theorem convert_shape (E : Env) (hσ : SimpShape E.simp) (t : Term) (hwf : t.wf = true) (hqf : t.isQF = true)
+theorem convert_shape (E : Env) (hσ : SimpShape E.simp) (hkb : KeyBool E) (t : Term) (hwf : t.wf = true)
+    (hqf : t.isQF = true) (hty : t.typeOf = some .bool)
     (R : List Clause) (hR : convert E t = some R) : shapeClauses R = true := by
   unfold convert at hR
   split at hR
   · cases hR
   · cases hR
-    have := enc_lits E hσ t hwf hqf
+    have := enc_lits E hσ hkb t hwf hqf hty
     refine finish_shape E _ _ ?_ (allLits_mono (encP_sub E t true) this.2)
     rw [encP_lit]; exact this.1
 
